@@ -60,21 +60,21 @@ DEALLOC = Lift(DQ, r"void dealloc_node\(node\* n\)", rules=[
     Sub(r"\b(\w+)->~node\(\);", r"node_destroy(\1);", 1),
     Call(r"\bpool_\.deallocate", "pool_deallocate(self, {0})", 1)])
 
-LOOP_GHOSTS = ("lin, lin_old, lin_new, g_lin_lr, g_lin_rl, g_lin_nr, g_lin_nl, g_lin_ldata, g_lin_rdata, g_nsteps, g_step_old, g_step_new, "
-               "g_last_read, g_obs, g_inward_seen, g_validated, g_own")
+LOOP_GHOSTS = ("lin, lin_old, lin_new, g_lin_lr, g_lin_rl, g_lin_nr, g_lin_nl, g_lin_ldata, g_lin_rdata, g_lin_owndata, g_nsteps, g_step_old, g_step_new, "
+               "g_last_read, g_obs, g_inward_seen, g_bl_idx, g_bl_left, g_bl_seen, g_validated, g_own")
 
 LOOP_POP = """
 __CPROVER_assigns(*r, g_q.anchor_, POOL_OBJECTS, g_retired, g_retired_node, %s)
 __CPROVER_loop_invariant(!lin && g_retired == 0 && g_own == NULL)
 __CPROVER_loop_invariant(A_OK(g_q.anchor_))
-__CPROVER_loop_invariant(POOL_OK)
+__CPROVER_loop_invariant(POOL_OK && GHOSTS_OK)
 __CPROVER_loop_invariant(ENDS_OK(g_q.anchor_))
 """ % LOOP_GHOSTS
 LOOP_PUSH = """
 __CPROVER_assigns(g_q.anchor_, POOL_OBJECTS, g_own_ll, g_own_lr, %s)
 __CPROVER_loop_invariant(!lin && g_allocs == 1 && g_own == n && INPOOL(n) && g_own_data == data && OWN_INTACT)
 __CPROVER_loop_invariant(A_OK(g_q.anchor_))
-__CPROVER_loop_invariant(POOL_OK)
+__CPROVER_loop_invariant(POOL_OK && GHOSTS_OK)
 __CPROVER_loop_invariant(ENDS_OK(g_q.anchor_))
 __CPROVER_loop_invariant(NOREF(g_q.anchor_, n))
 """ % LOOP_GHOSTS
